@@ -20,6 +20,9 @@ CHECKS = {
     "C14": ("paired strict/coerced boundary monitor: model-free monotonicity + reference model extended with the documented coercion table + invariant hook on the boolean-word table + custom-coercer probes",
             "Exploration: each generated (type, datum) is run strict and with coerce=True; strict acceptance must be preserved (equal result when union-free), every coerced acceptance/rejection must be explained by the documented table, custom coercer results must still be type-checked, settings.deserialization.coerce must equal coerce=True.",
             "Trusted: the coercion table transcribed from docs/de_serialization.md and the statement; abstains on bool-for-float and NaN under constraints.", "DESIGN §5 C14"),
+    "C13": ("boundary monitor on deserialize/serialize of unions with the real per-alternative calls as oracle (try-each-alternative), discriminator mapping computed from the program spec",
+            "Exploration: for generated unions (same-JSON-type pairs, by-type dispatch, Optional, unsupported members, union-level constraints; strict and coerce=True) the union call must accept iff some alternative accepts and return a value equal to the first accepting alternative's; discriminated unions (annotated / inherited / TypedDict; default, explicit, partial mappings) must behave as the mapped alternative, reject bad tags at the discriminator key, serialize as the matching alternative plus the key, and round-trip; TaggedUnion accepts exactly one tag.",
+            "Trusted: apischema's own per-alternative deserialize/serialize (self-referential oracle); the discriminator mapping rule transcribed from docs/json_schema.md and the example.", "DESIGN §5 C13"),
 }
 PLANNED = {
 }
